@@ -13,13 +13,16 @@
     - [dp_takes_reserve]: needs the extra premise [pools_routable] (every loaded pool lists at least one node
       subnet - true of every configuration FloatingIPPool.UnmarshalJSON accepts, see [routable_configure], but not
       recorded in [WInv]); [wf_pod p] is not needed; the conclusion is stronger: filter returns nodes EXACTLY when it
-      re-keyed a reserve IP, and then the IP is stored for the pod's UID. *)
+      re-keyed a reserve IP, and then the IP is stored for the pod's UID.  [pools_routable] is an invariant of every
+      well-formed history (Proofs/PluginPoolP.v, [ns_ok]): [dp_takes_reserve_reachable] states the same for every
+      reachable world without that premise. *)
 From Coq Require Import String.
 From stdpp Require Import gmap.
 From Galaxy.Base Require Import Strs.
 From Galaxy.Model Require Import Nets Pool Ipam Plugin PluginInfo.
 From Galaxy.Model Require Keys.
 From Galaxy.Proofs Require Import IpamP PluginInv PluginStickyP.
+From Galaxy.Proofs Require PluginPoolP.
 Local Open Scope N_scope.
 
 (** a pod (any policy, no requested ranges) whose key holds IPs is offered exactly the nodes from which the IP the
@@ -86,6 +89,33 @@ Theorem dp_takes_reserve : ∀ w p nodes o fl w' r,
                 ∀ z, z ≠ y → i_alloc (w_ipam w') !! z = i_alloc (w_ipam w) !! z)).
 Proof. exact dp_takes_reserve_w. Qed.
 Print Assumptions dp_takes_reserve.
+
+(** ... for every world reachable by a well-formed history, without the premise [pools_routable]: it is an invariant
+    ([PluginPoolP.ns_ok], the same predicate) *)
+Theorem pools_routable_reachable : ∀ provider nodes0 ops,
+  wf_hist (world0 provider nodes0) ops → pools_routable (w_ipam (prun (world0 provider nodes0) ops)).
+Proof. intros * Hwf. exact (proj2 (PluginPoolP.cinv_run ops _ (PluginPoolP.cinv_init provider nodes0) Hwf)). Qed.
+Print Assumptions pools_routable_reachable.
+
+Theorem dp_takes_reserve_reachable : ∀ provider nodes0 ops p nodes o fl w' r,
+  wf_hist (world0 provider nodes0) ops →
+  let w := prun (world0 provider nodes0) ops in
+  pd_kind p = KDp → policy_of p ≠ 0 → pd_ranges p = [] →
+  (∀ y ey, i_alloc (w_ipam w) !! y = Some ey → e_key ey ≠ pod_key p) →
+  (∃ y ey, i_alloc (w_ipam w) !! y = Some ey ∧ e_key ey = Keys.pool_prefix (keyobj_of p)) →
+  filter_section w p nodes o fl = (w', r) →
+  dom (i_alloc (w_ipam w')) = dom (i_alloc (w_ipam w)) ∧
+  ((w' = w ∧ ∀ l, r ≠ FNodes l) ∨
+   ((∃ l, r = FNodes l) ∧ w_pods w' = w_pods w ∧ w_lister w' = w_lister w ∧
+    ∃ y ey ey', i_alloc (w_ipam w) !! y = Some ey ∧ e_key ey = Keys.pool_prefix (keyobj_of p) ∧
+                i_alloc (w_ipam w') !! y = Some ey' ∧ e_key ey' = pod_key p ∧ e_uid ey' = pd_uid p ∧
+                i_unalloc (w_ipam w') = i_unalloc (w_ipam w) ∧ i_pools (w_ipam w') = i_pools (w_ipam w) ∧
+                ∀ z, z ≠ y → i_alloc (w_ipam w') !! z = i_alloc (w_ipam w) !! z)).
+Proof.
+  intros * Hwf w. destruct (PluginPoolP.cinv_run ops _ (PluginPoolP.cinv_init provider nodes0) Hwf) as [HW Hns].
+  by apply dp_takes_reserve_w.
+Qed.
+Print Assumptions dp_takes_reserve_reachable.
 
 (** [pools_routable] holds initially and is re-established by every (re)load of the configuration; no other
     operation changes the pools *)
